@@ -254,4 +254,38 @@ def wClaimStep (g : Ghost) (api : Api) : Event → Bool
 /-- the step-wise preconditions -/
 def wStep (g : Ghost) (api : Api) (e : Event) : Bool := wFilterStep g api e && wClaimStep g api e
 
+/-! ## Component level: what the per-node usage trackers account for after a sequence of per-pod operations
+
+`VolumeUsage` / `HostPortUsage` are told, per pod key, "this pod now uses these volumes / ports" (`Add`) and "this pod is gone"
+(`DeletePod`); a deep copy changes nothing. From scratch: a key counts with what its LAST `Add` gave unless a `DeletePod` of the
+key came after it; the node-wide volume set is the union over those keys and nothing else. -/
+
+inductive UsageOp
+  | add (p : PodObj)
+  | del (k : String)
+  | copy
+deriving Repr
+
+/-- what the key `k` is accounted with after `ops` (`none` = not tracked) -/
+def usageOf (k : String) (ops : List UsageOp) : Option PodObj :=
+  ops.foldl (fun acc o =>
+    match o with
+    | .add p => if p.name = k then some p else acc
+    | .del k' => if k' = k then none else acc
+    | .copy => acc) none
+
+/-- the tracked pods, one per key -/
+def usageTable (ops : List UsageOp) : List PodObj :=
+  (dedup (ops.filterMap fun o => match o with | .add p => some p.name | _ => none)).filterMap (fun k => usageOf k ops)
+
+def usageVolumes (ops : List UsageOp) : List Vol := ((usageTable ops).map (·.vols)).foldl volUnion []
+def usagePorts (ops : List UsageOp) : Map (List HostPort) := (usageTable ops).map (fun p => (p.name, p.ports))
+
+/-- the model's reading of one operation: `StateNode.updateForPod` / `cleanupForPod` (which call `VolumeUsage.Add/DeletePod` and
+    `HostPortUsage.Add/DeletePod`); used by the driver of `c11.usage` and by `C11_usage_tracks_table` -/
+def usageStep (fx : Fixes) (s : SNode) : UsageOp → SNode
+  | .add p => s.updateForPod fx p
+  | .del k => s.cleanupForPod k
+  | .copy => s
+
 end Karp.Spec.ClusterAbs
